@@ -317,9 +317,18 @@ Example abc_repeat_expansion_tokens_nonvacuous :
   let n l := TNote ANone l [] (mkLen None 0 None) in
   let ls := [LField (FX 1); LField (FK [67] [] false []);
              LMusic [n 65; TBar 0 1 1; n 66; n 99; TBar 1 1 0; n 100; TBar 0 1 2; n 101; TBar 2 1 0]] in
+  let same (a b : list Z) := if list_eq_dec Z.eq_dec a b then true else false in
   strict_tune ls = true /\
-  exists p t ns, sp_items sp0 (flatten ls) = Some p /\ opn p = None /\ anyb p = true /\
-    parse_tune ls = Ok t /\ expand t = Ok ([0; 1; 1; 2; 3; 3; 3], ns) /\
-    map n_pitch ns = [69; 71; 72; 71; 72; 74; 76; 76; 76].
-Proof. vm_compute. split; [reflexivity|]. do 3 eexists. repeat split; reflexivity. Qed.
+  match sp_items sp0 (flatten ls), parse_tune ls with
+  | Some p, Ok t =>
+      match expand t with
+      | Ok (ids, ns) =>
+          (match opn p with None => true | Some _ => false end) && anyb p &&
+          same ids [0; 1; 1; 2; 3; 3; 3] &&
+          same (map n_pitch ns) [69; 71; 72; 71; 72; 74; 76; 76; 76]
+      | Err _ => false
+      end
+  | _, _ => false
+  end = true.
+Proof. vm_compute. split; reflexivity. Qed.
 Print Assumptions abc_repeat_expansion_tokens_nonvacuous.
